@@ -82,7 +82,7 @@ func loadReuse(c *vlib.Ctx) (map[string]reuseCase, map[string]dirtyCase, int64) 
 			}
 		}
 	}
-	if nre < 100 || nfr < 100 || grow < 10 || len(dirty) != 36 {
+	if nre < 100 || nfr < 100 || grow < 10 || len(dirty) != 40 {
 		c.Fatal("Reuse.tla enumerated too little: %d reused / %d fresh sequences (%d with a growing step), %d dirty cases", nre, nfr, grow, len(dirty))
 	}
 	return reuse, dirty, mc.Distinct
@@ -687,6 +687,8 @@ func runDirty(c *vlib.Ctx, cases map[string]dirtyCase, r *rand.Rand) dirtyTotals
 				continue
 			case dc.Kind == "variant" && cd.variant == nil:
 				continue
+			case dc.Kind == "scalar":
+				continue // applied per field by runScalars
 			case dc.Kind == "slice" && cd.k == 0 && !(dc.Prev == "few" && dc.New == "few"):
 				continue // an object without groups: one decode over another value of the fixed fields
 			}
@@ -776,4 +778,170 @@ func selftestReuse(c *vlib.Ctx) {
 	if !ok {
 		c.Infra("selftest: a decoder that keeps the previous value was not noticed (%+v / %+v)", bad, good)
 	}
+}
+
+// ---------------------------------------------------------------------------
+// single fields: the zero / sentinel value arriving into a receiver that holds another value, and vice versa
+
+// leafPaths lists every settable field of the struct v points to (nested structs are entered; slices, arrays,
+// pointers, interfaces, strings and numbers are leaves; a nested struct is also listed as a whole).
+func leafPaths(t reflect.Type, prefix []int, depth int, out *[][]int) {
+	if t.Kind() != reflect.Struct || t == reflect.TypeOf(time.Time{}) || depth > 3 {
+		return
+	}
+	for i := 0; i < t.NumField(); i++ {
+		f := t.Field(i)
+		if !f.IsExported() {
+			continue
+		}
+		path := append(append([]int(nil), prefix...), i)
+		*out = append(*out, path)
+		if f.Type.Kind() == reflect.Struct {
+			leafPaths(f.Type, path, depth+1, out)
+		}
+	}
+}
+
+func pathName(t reflect.Type, path []int) string {
+	name := ""
+	for _, i := range path {
+		f := t.Field(i)
+		if name != "" {
+			name += "."
+		}
+		name += f.Name
+		t = f.Type
+	}
+	return name
+}
+
+func zeroAt(obj any, path []int) (wasZero bool) {
+	v := reflect.ValueOf(obj).Elem().FieldByIndex(path)
+	wasZero = v.IsZero()
+	v.Set(reflect.Zero(v.Type()))
+	return
+}
+
+type scalarObs struct {
+	dirtyObs
+	Field string `json:"field"`
+	Path  []int  `json:"path"`
+	NA    string `json:"not_applicable,omitempty"` // the zero value of the field is not a wire value / the field is not on this wire
+}
+
+// scalarDecode: object A (field zeroed if newZero) decoded into a receiver holding object B (field zeroed if prevZero).
+func scalarDecode(cd codec, path []int, prevZero, newZero bool, seed int64) scalarObs {
+	r := rand.New(rand.NewSource(seed))
+	shape := make([]int, cd.k)
+	for j := range shape {
+		shape[j] = cd.count("few", j, r)
+	}
+	a := cd.mk(rand.New(rand.NewSource(r.Int63())), shape)
+	b := cd.mk(rand.New(rand.NewSource(r.Int63())), shape)
+	t := reflect.TypeOf(a).Elem()
+	o := scalarObs{Field: pathName(t, path), Path: path}
+	o.dirtyObs = dirtyObs{Kind: "scalar", Fam: cd.fam, Obj: cd.name, Dir: cd.dir, Seed: seed, Held: shape, Arrives: shape,
+		Case: fmt.Sprintf("scalar-%s-%s", map[bool]string{true: "zero", false: "nonzero"}[prevZero], map[bool]string{true: "zero", false: "nonzero"}[newZero])}
+	full := cd.enc(a)
+	if newZero {
+		if zeroAt(a, path) {
+			o.NA = "the generated object already has the zero value there"
+			return o
+		}
+	}
+	if prevZero {
+		zeroAt(b, path)
+	}
+	var wire []byte
+	if panicked, val := vlib.Recover(func() { wire = cd.enc(a) }); panicked {
+		o.NA = fmt.Sprintf("the zero value cannot be encoded (%v)", val)
+		return o
+	}
+	if newZero && bytes.Equal(wire, full) {
+		o.NA = "the field is not on this wire"
+		return o
+	}
+	clean := cd.blank()
+	if err := cd.dec(wire, clean); err != nil {
+		o.NA = "the zero value is not a wire value: " + err.Error()
+		return o
+	}
+	if !bytes.Equal(cd.enc(clean), wire) {
+		o.NA = "the zero value does not survive a round trip into a zero receiver"
+		return o
+	}
+	var derr error
+	if panicked, val := vlib.Recover(func() { derr = cd.dec(wire, b) }); panicked {
+		o.What, o.Detail = "decode-panic", fmt.Sprint(val)
+		return o
+	}
+	if derr != nil {
+		o.What, o.Detail = "decode-error", derr.Error()
+		return o
+	}
+	if got := cd.enc(b); !bytes.Equal(got, wire) {
+		o.What = "field-not-replaced"
+		if newZero {
+			o.What = "zero-value-not-stored"
+		}
+		o.Detail = fmt.Sprintf("field %s: %d bytes sent; the receiver re-encodes to %d bytes, first difference at byte %d", o.Field, len(wire), len(got), firstDiff(got, wire))
+	}
+	return o
+}
+
+func judgeScalar(c *vlib.Ctx, o scalarObs) {
+	if o.NA != "" || o.What == "" {
+		return
+	}
+	key := fmt.Sprintf("dirty-%s-%s-%s-%s-%s", o.Fam, slug(o.Obj), o.Dir, slug(o.Field), o.What)
+	c.Violation(key, fmt.Sprintf("%s/%s/%s field %s (%s): what arrives is not what the receiver holds afterwards: %s: %s",
+		o.Fam, o.Obj, o.Dir, o.Field, o.Case, strings.ReplaceAll(o.What, "-", " "), o.Detail), o)
+}
+
+// runScalars applies the scalar DIRTY cases to every settable field of every registered wire type.
+func runScalars(c *vlib.Ctx, cases map[string]dirtyCase, r *rand.Rand) dirtyTotals {
+	var t dirtyTotals
+	var mu sync.Mutex
+	applied := map[string]int{} // family -> fields for which a zero value really arrived in a non-zero receiver
+	na := map[string]int{}
+	var jobs []func()
+	for _, cd := range allCodecs() {
+		cd := cd
+		sample := cd.mk(rand.New(rand.NewSource(1)), make([]int, cd.k))
+		var paths [][]int
+		leafPaths(reflect.TypeOf(sample).Elem(), nil, 0, &paths)
+		for _, path := range paths {
+			path := path
+			for _, k := range sortedKeys(cases) {
+				dc := cases[k]
+				if dc.Kind != "scalar" || (dc.Prev == "nonzero" && dc.New == "nonzero") {
+					continue // nonzero over nonzero is what every other dirty case does
+				}
+				seed := r.Int63()
+				jobs = append(jobs, func() {
+					o := scalarDecode(cd, path, dc.Prev == "zero", dc.New == "zero", seed)
+					mu.Lock()
+					if o.NA != "" {
+						na[o.NA[:min(len(o.NA), 40)]]++
+					} else {
+						t.evals++
+						t.distinct++
+						if dc.New == "zero" && dc.Prev == "nonzero" {
+							applied[cd.fam]++
+						}
+					}
+					mu.Unlock()
+					judgeScalar(c, o)
+				})
+			}
+		}
+	}
+	parallel(8, jobs)
+	for fam, want := range map[string]int{"rhp2": 20, "rhp3": 30, "rhp4": 60, "gw": 10} {
+		if applied[fam] < want {
+			c.Infra("vacuity: single fields: a zero value arrived in a non-zero receiver for only %d fields of family %s (want ≥ %d)", applied[fam], fam, want)
+		}
+	}
+	c.Cov("dirty_single_fields", map[string]any{"decodes": t.evals, "fields_with_zero_arriving_in_nonzero_receiver": applied, "not_applicable": na})
+	return t
 }
